@@ -324,7 +324,7 @@ func genC08(t *rapid.T) (*DCase, map[string]bool) {
 	for k := 0; k < ncalls; k++ {
 		r := fmt.Sprintf("r%d", k)
 		call := g.callExpr(0, argSrc)
-		switch g.n(0, 7, "position") {
+		switch g.n(0, 8, "position") {
 		case 0: // operand
 			stmts = append(stmts, set(r, ast.Bin("+", call, ast.Num("100"))))
 		case 1: // argument of another call
@@ -346,6 +346,9 @@ func genC08(t *rapid.T) (*DCase, map[string]bool) {
 		case 5: // short-circuit right operand (must not be called when not needed)
 			stmts = append(stmts, set(r, ast.Bin(rapid.SampledFrom([]string{"&&", "||"}).Draw(t, "sc"), rapid.SampledFrom([]*ast.Node{ast.True(), ast.False()}).Draw(t, "scl").Clone(), call)))
 			g.labels["call-short-circuit"] = true
+		case 8: // arguments of a print statement: the callee's own prints come first, whole lines
+			stmts = append(stmts, ast.Print(ast.Str("PA"), call, ast.Str("|"), g.callExpr(0, argSrc), ast.Arr(g.callExpr(0, argSrc))), set(r, ast.Num("0")))
+			g.labels["call-in-print-arguments"] = true
 		default:
 			stmts = append(stmts, set(r, call))
 		}
